@@ -21,7 +21,7 @@ NOT_APPLICABLE = {
 
 ALL = [f"C{i:02d}" for i in range(1, 21)]
 # checks that are finished and registered (a module file alone does not claim anything)
-READY = ["C01", "C03", "C11", "C12", "C13", "C14", "C15", "C18", "C19", "C20"]
+READY = ["C01", "C02", "C03", "C08", "C11", "C12", "C13", "C14", "C15", "C18", "C19", "C20"]
 
 
 def main():
